@@ -95,6 +95,17 @@ Theorem unknown_protocol_skipped :
 Proof. exact unknown_protocol_skipped_lemma. Qed.
 Print Assumptions unknown_protocol_skipped.
 
+(* announce.Send over the HTTP sender: nothing is sent for an undefined CID; otherwise
+   the receiver decodes the CID and every given address with /p2p/<publisher> appended. *)
+Theorem announce_send_wire : forall cfg c addrs,
+  announce_send cfg None addrs = None /\
+  (forall body, cid_wf c = true -> s_p2p cfg <> [] ->
+     announce_send cfg (Some c) addrs = Some (Ok body) ->
+     dec body = Ok (Msg (Some c) (mk_sl (map (fun a => Some (a ++ s_p2p cfg)) addrs))
+                        (norm_b (override_extra cfg None)) [], [])).
+Proof. exact announce_send_wire_lemma. Qed.
+Print Assumptions announce_send_wire.
+
 (* What a pubsub receiver decodes from the data p2psender.Send publishes. *)
 Theorem p2p_wire_decodes : forall cfg m data,
   cid_ok m = true -> p2p_wire cfg m = Ok data ->
